@@ -2,52 +2,28 @@ package main
 
 import (
 	"bytes"
-	"crypto"
-	"encoding/binary"
 	"fmt"
 	"os"
 
 	"github.com/foxboron/go-uefi/authenticode"
-	"verif/internal/keys"
+	"verif/internal/refpe"
 )
 
 func main() {
 	b, _ := os.ReadFile("/repo/authenticode/testdata/test.pecoff.signed")
-	// find dd[4]
-	lfanew := int(binary.LittleEndian.Uint32(b[0x3c:]))
-	opt := lfanew + 24
-	magic := binary.LittleEndian.Uint16(b[opt:])
-	ddoff := opt + 96
-	if magic == 0x20b {
-		ddoff = opt + 112
-	}
-	ce := ddoff + 8*4
-	va := binary.LittleEndian.Uint32(b[ce:])
-	sz := binary.LittleEndian.Uint32(b[ce+4:])
-	dw := binary.LittleEndian.Uint32(b[va:])
-	fmt.Println("len", len(b), "va", va, "size", sz, "dwLength", dw)
-	cut := int(sz - dw)
-	x := append([]byte(nil), b[:len(b)-cut]...)
-	binary.LittleEndian.PutUint32(x[ce+4:], dw)
-	bin, err := authenticode.Parse(bytes.NewReader(x))
-	fmt.Println("parse", err)
-	sigs, err := bin.Signatures()
-	fmt.Println("sigs", len(sigs), err)
-	out := bin.Bytes()
-	fmt.Println("bytes len", len(out), "prefix equal", bytes.Equal(out[:len(x)], x), "tail", out[len(x):])
-	fmt.Printf("hash %x\n", bin.Hash(crypto.SHA256))
-	k := keys.Get(0)
-	cert := keys.Simple(k, "probe", 1)
-	_, err = bin.Sign(k.Priv, cert)
-	fmt.Println("sign", err)
-	out2 := bin.Bytes()
-	fmt.Println("after sign len", len(out2), "orig table prefix kept", bytes.Equal(out2[va:int(va)+int(dw)], x[va:]), "dd", binary.LittleEndian.Uint32(out2[ce:]), binary.LittleEndian.Uint32(out2[ce+4:]))
-	b2, err := authenticode.Parse(bytes.NewReader(out2))
-	fmt.Println("reparse", err)
-	if err == nil {
-		s2, err := b2.Signatures()
-		fmt.Println("sigs2", len(s2), err)
-		ok, err := b2.Verify(cert)
-		fmt.Println("verify new", ok, err)
+	d0, _, err := refpe.Digest(b, true)
+	fmt.Printf("orig %x %v\n", d0[:6], err)
+	for _, n := range []int{8, 64, 4096, 3} {
+		x := append(append([]byte(nil), b...), bytes.Repeat([]byte{0xAB}, n)...)
+		d1, _, err := refpe.Digest(x, true)
+		im, _ := refpe.ParseHeaders(x)
+		fmt.Printf("n=%d ref %x err=%v wellformed=%v\n", n, d1[:min(6, len(d1))], err, im.WellFormed(len(x)))
+		bin, err := authenticode.Parse(bytes.NewReader(x))
+		if err != nil {
+			fmt.Println("  lib parse:", err)
+			continue
+		}
+		sigs, serr := bin.Signatures()
+		fmt.Println("  lib sigs", len(sigs), serr)
 	}
 }
